@@ -50,11 +50,12 @@ class World:
 	pass
 
 
-def _make_container(ctx, ch, kind, arrays, dtype, label):
+def _make_container(ctx, ch, kind, arrays, dtype, label, typed=None):
 	"""Build the reference container of the requested kind. Returns (container, closer)."""
 	from gambit.sigs.base import SignatureArray, SignatureList, dump_signatures, load_signatures
 	from gambit.kmers import KmerSpec
-	typed = [a.astype(dtype) for a in arrays]
+	if typed is None or kind not in ('list', 'SignatureList'):
+		typed = [a.astype(dtype) for a in arrays]
 	kspec = KmerSpec(11, 'ATGAC')
 	if kind == 'SignatureArray':
 		return SignatureArray(typed, kspec, dtype=np.dtype(dtype)), None
@@ -162,6 +163,23 @@ def scenario(ctx):
 			queries.extend(W.make_collection(rng, 1, universe))
 	refs_t = [a.astype(rdt) for a in refs]
 	queries_t = [a.astype(qdt) for a in queries]
+	# list-type containers may hold signatures of different integer widths (each wide enough for its own values)
+	mixed = ch.flip(0.3, 'mixed_widths')
+	refs_mixed = None
+	if mixed:
+		refs_mixed = []
+		for i, a in enumerate(refs):
+			mx = int(a.max()) if len(a) else 0
+			fits = [d for d in DTYPES if np.iinfo(d).max >= mx]
+			# narrow ones first in the list more often: a packing routine that trusts the first element is the classic slip
+			d = fits[0] if (i == 0 or rng.random() < 0.4) and mx < 2 ** 15 else rng.choice(fits)
+			refs_mixed.append(a.astype(d))
+		if len(refs) and int(refs[0].max() if len(refs[0]) else 0) >= 2 ** 15 and universe > 2 ** 16:
+			# make the first signature narrow: small values only
+			small = W.random_set(rng, 4096, rng.randint(1, 40))
+			refs[0] = small
+			refs_t[0] = small.astype(rdt)
+			refs_mixed[0] = small.astype('u2')
 	ctx.log('world', nref=nref, nq=nq, universe=universe, qdt=qdt, rdt=rdt, sizes=[len(a) for a in refs],
 	        h=blob_hash(np.concatenate(refs + queries)) if refs else '')
 	omp.set_threads(ch.int(1, 16, 'initial_threads'))   # a run never inherits the setting of an earlier run
@@ -170,7 +188,9 @@ def scenario(ctx):
 
 	def container(kind):
 		if kind not in containers:
-			c, closer = _make_container(ctx, ch, kind, refs, rdt, f'refs-{len(containers)}')
+			c, closer = _make_container(ctx, ch, kind, refs, rdt, f'refs-{len(containers)}', typed=refs_mixed)
+			if refs_mixed is not None and kind in ('list', 'SignatureList'):
+				ctx.probe('mixed_width_list_container')
 			containers[kind] = c
 			if closer:
 				closers.append(closer)
@@ -195,7 +215,8 @@ def scenario(ctx):
 			progress = progress_config(TestProgressMeter, allow_decrement=False) if ch.flip(0.2, L + '.progress') else None
 			desc = dict(fn=fn, container=kind, team=team, tpol=tp, opol=op)
 			chunk_regime = idx_regime = out_regime = None
-			with omp.Armed(ctx, oseed, tp, op) as armed:
+			from ..harness import knob_defaults
+			with omp.Armed(ctx, oseed, tp, op) as armed, knob_defaults(ctx, ch, L):
 				if fn == 'array':
 					q = ch.int(0, nq - 1, L + '.q')
 					# optionally a slice / selection of the container (exercises re-based bounds)
